@@ -160,6 +160,7 @@ func genC20R4(c *Ctx) {
 	genC20EncoderOnly(c)
 	genC20Payloads(c)
 	genC20EnvelopeValues(c)
+	genC20AcceptedForms(c)
 }
 
 // bit strings as ReadBits returns them: every (position mod 8, length mod 4)
